@@ -150,3 +150,31 @@ Example C03_roots_collapse :
   | Err _ => False
   end.
 Proof. vm_compute. reflexivity. Qed.
+
+(* ---------- deploy side (Model/Deploy.v): deletes and the managed set ----------
+   The render theorems above put every DESIRED file under a root of its target.  The plan also
+   contains deletes, generated from the managed set.  For every world (any manifests, any snapshot
+   history of this agentpack home — other projects' and earlier configurations' deploys included):
+   every recorded path used for planning, hence every planned change, lies under a root of its
+   target in the current run, and whatever a deploy changes on disk lies under one of these roots. *)
+Require AP.Model.Deploy AP.Proofs.DeployP.
+
+Theorem C03_managed_under_roots : forall w roots flt tp,
+  In tp (Deploy.managed_for_plan w roots flt) -> Deploy.under_roots roots tp = true.
+Proof. exact DeployP.managed_under_roots. Qed.
+Print Assumptions C03_managed_under_roots.
+
+Theorem C03_plan_under_roots : forall w roots flt D c,
+  (forall d, In d D -> Deploy.under_roots roots (Deploy.dkey d) = true) ->
+  In c (Deploy.plan (Deploy.files w) D (Deploy.managed_for_plan w roots flt)) ->
+  Deploy.under_roots roots (Deploy.c_target c, Deploy.c_path c) = true.
+Proof. exact DeployP.plan_under_roots. Qed.
+Print Assumptions C03_plan_under_roots.
+
+Theorem C03_deploy_changes_under_roots : forall st confirmed adopt flt w roots D pl out w' p,
+  (forall d, In d D -> Deploy.under_roots roots (Deploy.dkey d) = true) ->
+  Deploy.deploy_cmd st confirmed adopt flt w roots D = (pl, (out, w')) ->
+  Deploy.files w' p <> Deploy.files w p ->
+  exists r, In r roots /\ Deploy.is_prefix (Deploy.rpath r) p = true.
+Proof. exact DeployP.deploy_changes_under_roots. Qed.
+Print Assumptions C03_deploy_changes_under_roots.
